@@ -298,20 +298,43 @@ class SelfUnknown(edzed.FSM):
 
 
 class Mon(edzed.AddonMainTask, edzed.SBlock):
-    """monitored main task failing on request"""
+    """monitored main task failing on request; with fut=True the failing monitored task awaits a plain FUTURE
+    instead of a coroutine (`_create_monitored_task(coro: Awaitable, ...)` in docs/new_sblocks.rst: a Future, the
+    result of asyncio.gather() or any object with __await__ is a legal argument)"""
 
-    def __init__(self, *args, eid, **kwargs):
+    def __init__(self, *args, eid, fut=False, **kwargs):
         self.eid = eid
+        self.fut = fut
         self.ev = None
+        self.aux = None
         super().__init__(*args, **kwargs)
 
     def start(self):
         self.ev = asyncio.Event()
         super().start()
+        if self.fut:
+            self.auxfut = asyncio.get_running_loop().create_future()
+            self.aux = self._create_monitored_task(self.auxfut, name=f"edzed: aux task of {self.name}")
+
+    def trigger(self):
+        if self.fut:
+            if not self.auxfut.done():
+                self.auxfut.set_exception(RuntimeError(f'src{self.eid}'))
+        else:
+            self.ev.set()
 
     async def _maintask(self):
         await self.ev.wait()
         raise RuntimeError(f'src{self.eid}')
+
+    async def stop_async(self):
+        if self.aux is not None:
+            self.aux.cancel()
+            try:
+                await self.aux
+            except BaseException:   # its error (if any) has been delivered to the simulator already
+                pass
+        await super().stop_async()
 
     def init_regular(self):
         self.set_output(None)
@@ -436,7 +459,7 @@ def build(scn):
     for inst in scn['ops']:
         for s in inst:
             if s[0] == 'monTrigger':
-                ctx['mon'][s[1]] = Mon(f'mon{s[1]}', eid=s[1])
+                ctx['mon'][s[1]] = Mon(f'mon{s[1]}', eid=s[1], fut=(s[1] % 2 == 0))
     h = scn['harmless']
     if 'asyncinit' in h:
         BadAsyncInit('bad_ai', initdef=1, init_timeout=1)
@@ -526,7 +549,7 @@ def fire(rec, ctx, s, sups):
         elif kind == 'monTrigger':
             if ctx['mon'][s[1]].ev is None:     # the block was never started
                 return
-            ctx['mon'][s[1]].ev.set()
+            ctx['mon'][s[1]].trigger()
         elif kind == 'supFail':
             sups[s[1]]['eid'] = s[2]
             sups[s[1]]['ev'].set()
